@@ -124,6 +124,10 @@ PROPS['C13'] = dict(
         O('C13.grid_shuffled_restart', 'harness.c13_grid', 'grid_shuffled_restart', 200, 900,
           'shuffled grid: load() restores the shuffle order from metadata; period = grid size',
           'seeds 0..3, radices 2..3, index 0..9'),
+        O('C13.hosted_grid_via_factory', 'harness.c13_grid', 'hosted_grid_via_factory', 120, 600,
+          'GRID_SEARCH / SHUFFLED_GRID_SEARCH exactly as the service hosts them (real DefaultPolicyFactory, new policy per '
+          'request, shuffle seed taken from a clock that ticks between requests): every grid point once before repeating',
+          'radices 1..3 x 1..3, batch sizes 1..3 cyclic'),
         O('C13.eagle_restart', 'harness.c13_evolution', 'eagle_restart_quick', 240, None,
           'eagle strategy: a twin restarted (dump -> wire -> new instance -> load) before a chosen subset of 8 rounds makes '
           'the same suggestions as the instance kept alive and ends with the same persisted state, also when trials are '
@@ -146,8 +150,9 @@ PROPS['C03'] = dict(
              '_sample_value/sample_parameters', 'GridSearchDesigner.suggest', 'SearchSpace.contains'],
     bounds='one parameter per type with symbolic bounds / <= 4 feasible values; numpy Generator replaced by a stub '
            'returning arbitrary in-contract draws',
-    outside='designers whose suggestions are computed by numpy/JAX pipelines (quasi-random, eagle, NSGA-II, CMA-ES, '
-            'BOCS, HARMONICA, GP designers); LOG/REVERSE_LOG scaling; float rounding',
+    outside='GP designers (DEFAULT/GP_UCB_PE, GAUSSIAN_PROCESS_BANDIT: JAX/equinox stack does not run in this image); for the '
+            'numpy-pipeline designers (quasi-random, eagle, NSGA-II, CMA-ES, BOCS, HARMONICA) everything beyond the listed '
+            'space shapes / schedules of the hosted obligations; float rounding',
     assumptions=[],
     obligations=[
         O('C03.sample_double', 'harness.c03_random', 'sample_double_in_bounds', 60, 300,
@@ -173,6 +178,15 @@ PROPS['C03'] = dict(
         O('C03.grid_members', 'harness.c13_grid', 'grid_members', 200, 900,
           'GRID_SEARCH kernel: each suggestion assigns every parameter a member of its domain',
           'radices 1..3 x 1..3 x 0..2, all indices, count 1..3'),
+    ] + [
+        O('C03.hosted_%s' % n.lower(), 'harness.c03_hosted', 'hosted_in_space', 300, 900,
+          '%s as hosted by the service (real policy factory, policy rebuilt per request, state through metadata): the '
+          'configuration is refused with an error or every suggestion assigns each parameter once, inside its domain' % n,
+          '8 boundary search-space shapes (singletons, ints around 2**24 / 2**53, negative/huge/tiny ranges, LOG/REVERSE_LOG, '
+          'partly boolean) x 5 batch-size sequences x 3 history patterns (all completed / infeasible + active mixed in)',
+          env={'VERIF_SLICE': str(i)}, no_validate=True)
+        for i, n in enumerate(['QUASI_RANDOM_SEARCH', 'NSGA2', 'EAGLE_STRATEGY', 'HARMONICA', 'BOCS', 'CMA_ES',
+                               'RANDOM_SEARCH', 'GRID_SEARCH', 'SHUFFLED_GRID_SEARCH'])
     ])
 
 PROPS['C12'] = dict(
